@@ -262,6 +262,13 @@ func bannedOpts(j *proto.Job) ([]core.Option, error) {
 		}
 		dd = append(dd, e)
 	}
+	if j.BannedSplit {
+		var oo []core.Option
+		for _, d := range dd {
+			oo = append(oo, core.WithBannedDirectives(d))
+		}
+		return oo, nil
+	}
 	return []core.Option{core.WithBannedDirectives(dd...)}, nil
 }
 
